@@ -23,12 +23,18 @@ from ..report import Report
 TIME_WORDS = ("get_time", "time_key", "get_times", "times[", "time_of", ".time")
 
 
-def _mentions_time(e: ast.AST | None, f: ast.FunctionDef) -> bool:
-    if e is None:
+def _mentions_time(e: ast.AST | None, f: ast.FunctionDef, _depth: int = 0) -> bool:
+    if e is None or _depth > 3:
         return False
     src = norm(e)
     if any(w in src for w in TIME_WORDS):
         return True
+    # key=<table>.__getitem__ / <table>.get where the table was filled from the nodes' times
+    if isinstance(e, ast.Attribute) and e.attr in ("__getitem__", "get") and isinstance(e.value, ast.Name):
+        for s in ast.walk(f):
+            if isinstance(s, ast.Assign) and any(isinstance(t, ast.Name) and t.id == e.value.id for t in s.targets):
+                if _mentions_time(s.value, f, _depth + 1):
+                    return True
     # key=<local function / lambda bound to a name>
     if isinstance(e, ast.Name):
         for s in ast.walk(f):
